@@ -129,11 +129,11 @@ PROPS = {
         technique="type walk over ADT facts + MIR def-use (handle fields, output evidence) + call-graph reachability",
     ),
     "C04": dict(
-        rules=[R("vm", "rule_frames"), R("vm", "rule_catch_restore"), R("iters", "rule_iter_err"), R("values", "rule_replace_atomic"), R("compiler", "rule_try_exit")],
+        rules=[R("vm", "rule_frames"), R("vm", "rule_catch_restore"), R("iters", "rule_iter_err"), R("values", "rule_replace_atomic"), R("compiler", "rule_try_exit"), R("vm", "rule_err_kind")],
         clause="Every nested interpreter entry sets the execution barrier and pops its frame when the nested run fails "
                "(R-FRAMES); resuming at a catch handler restores the sequence/string builder stacks (R-CATCH-RESTORE); "
                "no iterator output that may carry an error is dropped on its way up through adaptors and consumers "
-               "(R-ITER-ERR). the multi-step replace-at-index of a map entry cannot be interrupted by an error exit (R-REPLACE-ATOMIC). break / continue emit TryEnd for the try blocks they leave, the only way a catch point is removed (R-TRY-EXIT). Not decided: finally on every path, handler scoping across break/continue/return "
+               "(R-ITER-ERR). the multi-step replace-at-index of a map entry cannot be interrupted by an error exit (R-REPLACE-ATOMIC). break / continue emit TryEnd for the try blocks they leave, the only way a catch point is removed (R-TRY-EXIT). a thrown value travels as an Error, never as its rendering (R-ERR-KIND). Not decided: finally on every path, handler scoping across break/continue/return "
                "(emitted control flow), variable state after a catch.",
         technique="MIR path rules (sibling protocol at nested entries, must-pass-through) + linear-value evidence rule",
     ),
@@ -212,10 +212,10 @@ PROPS = {
         technique="MIR path rules (pairing on all exits) over a rustc_private fact dump",
     ),
     "C08": dict(
-        rules=[R("vm", "rule_timeout_poll"), R("vm", "rule_timeout_nocatch"), R("vm", "rule_unwind_all")],
+        rules=[R("vm", "rule_timeout_poll"), R("vm", "rule_timeout_nocatch"), R("vm", "rule_unwind_all"), R("vm", "rule_err_kind")],
         clause="The deadline poll dominates every instruction dispatch in the interpreter loop (R-TIMEOUT-POLL) and a "
                "timeout is never offered to a catch handler, including timeouts returned by nested interpreter entries "
-               "(R-TIMEOUT-NOCATCH). a timeout leaves the interpreter loop through the unwinder like every other error (R-UNWIND-ALL). Not decided: time bounds/slack, adaptive poll interval, native loops.",
+               "(R-TIMEOUT-NOCATCH). a timeout leaves the interpreter loop through the unwinder like every other error (R-UNWIND-ALL). errors keep their kind when they are passed on: no Error is rendered to text and re-wrapped (R-ERR-KIND). Not decided: time bounds/slack, adaptive poll interval, native loops.",
         technique="MIR dominance / must-pass-through and constant-argument analysis",
     ),
     "C18": dict(
